@@ -199,7 +199,23 @@ def check_cli(chk, MX, tmp):
             if "SolverNotConverged" in p.stderr or "MaxIteration" in p.stderr:
                 chk.count("cli-nonconverged")
                 continue
-            chk.violation("cli:crash", dict(rep, what="the runner exited with status %d" % p.returncode))
+            # an analysis that fails on this (generated) aircraft fails through the API as well: only a runner that dies where the
+            # same call sequence on a fresh scene goes through is a defect of the runner
+            api_error = None
+            try:
+                sc_ = MX.Scene(os.path.join(d, rel))
+                for m_, kw, given in run:
+                    if m_ in methods:
+                        kw2 = {k: v for k, v in kw.items() if k != "filename"}
+                        if m_ in ("export_stl", "export_vtk"):
+                            kw2["filename"] = os.path.join(d, "ref_" + m_ + (".stl" if m_ == "export_stl" else ".vtk"))
+                        getattr(sc_, m_)(**kw2)
+            except Exception as e:
+                api_error = type(e).__name__
+            if api_error is not None and api_error in p.stderr:
+                chk.count("cli-analysis-error=" + api_error)
+                continue
+            chk.violation("cli:crash", dict(rep, what="the runner exited with status %d (the same calls through the API: %s)" % (p.returncode, api_error or "no error")))
             continue
         created = sorted(os.path.relpath(os.path.join(dp, f), d) for dp, _, fs in os.walk(d) for f in fs
                          if os.path.join(dp, f) not in before and os.path.join(dp, f) != acfile and os.path.relpath(os.path.join(dp, f), d) != rel)
